@@ -216,7 +216,7 @@ theorem exists_bond_iff (m : Mol) (x : Nat) (P : Bond → Prop) :
 
 theorem union_openMap_left (A B : Mol) (hA : A.wf = true) (hB : B.wf = true) : OpenMap id A (A.union B) := by
   have _ := hB
-  refine ⟨Function.injective_id, fun x hx => atom?_union_left A B x hx, ?_, ?_, ?_, ?_⟩
+  refine OpenMap.ofRingsEq Function.injective_id (fun x hx => atom?_union_left A B x hx) ?_ ?_ ?_ ?_
   · intro x y hx _
     simp only [id]
     rw [bondBetween_union_left A B x y hx]
@@ -243,8 +243,8 @@ theorem union_openMap_left (A B : Mol) (hA : A.wf = true) (hB : B.wf = true) : O
 
 theorem union_openMap_right (A B : Mol) (hA : A.wf = true) (hB : B.wf = true) :
     OpenMap (· + A.natoms) B (A.union B) := by
-  refine ⟨add_injective A.natoms, fun x _ => atom?_union_right A B x,
-    fun x y _ _ => bondBetween_union_right A B hA x y, ?_, ?_, fun x _ => ringsThrough_union_right A B hA x⟩
+  refine OpenMap.ofRingsEq (add_injective A.natoms) (fun x _ => atom?_union_right A B x)
+    (fun x y _ _ => bondBetween_union_right A B hA x y) ?_ ?_ (fun x _ => ringsThrough_union_right A B hA x)
   · intro x y' e' hx hb
     have he : e' ∈ (A.union B).bonds := by unfold Mol.bondBetween at hb; exact List.mem_of_find?_eq_some hb
     have hj : e'.joins (x + A.natoms) y' = true := by
